@@ -264,6 +264,8 @@ class PythonTranslator(ASTTranslator):
     def postConstant(translator, node):
         node.priority = 1
         value = node.value
+        if type(value) in (int, float) and repr(value).startswith('-'):
+            node.priority = 4  # same as unary minus: the compiler folds -1 into a constant
         if type(value) is float: # for Python < 2.7
             s = str(value)
             if float(s) == value: return s
